@@ -148,9 +148,12 @@ __CPROVER_ensures(value == kAllDone ==> (g.done && *word == kAllDone))
                    funcs=[b_set], canaries=3, expect=[r'postcondition', r'G_set', r'invariant after step|loop_invariant_step', r'no access to a waiter'], meta={'fn': 'SetImpl'}))
     # ---- Set / Call: which sentinel ------------------------------------------------------------------------
     for nm, b, val in (('Set', b_sset, 'kAllDone'), ('Call', b_call, 'kEmpty')):
-        cc = Rewriter('OneShotEvent::' + nm, pre=[(r'SetImpl\(\s*_head\s*,', 'SetImpl(&self->_head,', 1)]).rewrite(b.text)
+        cc = Rewriter('OneShotEvent::' + nm, pre=[(r'SetImpl\(\s*_head\s*,', 'SetImpl(&self->_head,', 0), (r'(?<![\w.>:])Call\(\s*\)', 'SetImpl(&self->_head, kEmpty)', 0),
+                                                  (r'_head\.(?:store|exchange|compare_exchange_weak|compare_exchange_strong|fetch_\w+)\(', 'HEAD_DIRECT_WRITE(', 0),
+                                                  (r'std::memory_order(?:_|::)\w+', '0', 0)], nomembers=['_head']).rewrite(b.text)
         src = COMMON + '''
 uintptr_t* g_word; uintptr_t g_value; unsigned g_calls;
+#define HEAD_DIRECT_WRITE(...) __CPROVER_assert(0, "C16: Set / Call change the head only through the single exchange of SetImpl (a separate write of the sentinel loses every waiter registered in between)")
 void SetImpl(uintptr_t* word, uintptr_t value) __CPROVER_assigns(g_word, g_value, g_calls) __CPROVER_ensures(g_word == word && g_value == value && g_calls == OLD(g_calls) + 1);
 void F(OneShotEvent* self)
 __CPROVER_requires(__CPROVER_is_fresh(self, sizeof(*self)) && g_calls == 0)
